@@ -47,8 +47,9 @@ def case_st(draw):
                                  "inter-blank1", "mmb-blank"]))
     c = {"kind": kind, "pick": draw(st.integers(0, 10 ** 6))}
     if kind == "inter-blank1":
-        # side 1 has no catalogue; only the 80-track single-density geometry is then unambiguous
-        c.update({"tracks": 80, "spt": 10, "ext": "dsd"})
+        # side 1 has no catalogue at all: the geometry then follows from side 0's catalogue alone
+        dd = draw(st.booleans())
+        c.update({"tracks": draw(st.sampled_from([35, 40, 80])), "spt": 18 if dd else 10, "ext": "ddd" if dd else "dsd"})
         return c
     if kind == "mmb-blank":
         c["slots"] = [[draw(st.sampled_from([0, 1, 2, 255, 510])), 0x0F]]
